@@ -663,10 +663,19 @@ class NN:
         return None
 
     # ---- sites
-    def fold_guards(self, guards, mapping):
+    def fold_guards(self, guards, mapping, q=None):
         out = []
+
+        def numeric_not_none(t):
+            # the edit bound and the custom radius are numbers (validated / documented): a test of them against None is decided
+            if head(t) == "cmp" and t[1] in ("is", "isnot", "==", "!=") and is_const(strip(t[3]), None) and q is not None and self.R._role_of(q, strip(t[2])) in ("K", "MCD"):
+                return TRUE if t[1] in ("isnot", "!=") else FALSE
+            return t
+        from .rules import rewrite as _rw
         for gterm, pol in guards:
             f = fold(gterm, mapping)
+            if q is not None:
+                f = simplify(_rw(f, numeric_not_none))
             for atom, p in lits(f, pol):
                 if atom == FALSE and p:
                     return None
@@ -713,7 +722,7 @@ class NN:
                 base = [(g, pol) for g, pol in e.ctx.guards if not (pol and strip_all(g) in asserted)]
                 claims = [(g, pol) for g, pol in e.ctx.guards if pol and strip_all(g) in asserted]
                 for d_term, guards in self._distance_variants(trip[2], base + extra_guards):
-                    g2 = self.fold_guards(guards, m)
+                    g2 = self.fold_guards(guards, m, q)
                     if g2 is None:
                         continue
                     loops = [(l, fold(s.loops[l].iterable, m)) for l in e.ctx.loops] + [(None, fold(x, m)) for _, x in extra_loops]
